@@ -41,7 +41,8 @@ def tq(q):
 
 
 def tr(r, rdiv):
-    return r * 2.0 ** -45 if FINE else r / rdiv
+    # fine embedding: remainders next to 1/2, 2^-45 apart (exact in a double; a narrower representation cannot tell them apart)
+    return 0.5 + r * 2.0 ** -45 if FINE else r / rdiv
 
 
 def real_time(t, rdiv):
@@ -184,7 +185,7 @@ def main():
             if r is not None:
                 r["behaviour"] = idx
                 if FINE:
-                    r["what"] += " (times embedded as quotient 2^50 + q, remainder r * 2^-45)"
+                    r["what"] += " (times embedded as quotient 2^50 + q, remainder 1/2 + r * 2^-45)"
                 fails.append(r)
                 break
         FINE = False
